@@ -11,7 +11,7 @@ class MessageMetaAttributes(object):
         self.sender = sender
         self.recipient = recipient
         self.notify = notify
-        self.timestamp = int(timestamp) if timestamp else None
+        self.timestamp = int(timestamp) if timestamp is not None else None
         self.participant = participant
         self.offline = None if offline is None else offline in ("1", True)
         self.retry = int(retry) if retry else None
